@@ -233,6 +233,34 @@ fn main() {
         t
     });
 
+    // S3c: structured operands (word limits, word-crossing products, digit patterns at every length, carry
+    // chains, all-ones words) as dividends and as divisors
+    let st = structured_ints(tier.pick(60, 200), tier.pick(24, 60), run.seed());
+    run.bound("S3c_structured_integers", st.len());
+    run.par("S3c structured operands", st.len(), |i| {
+        let mut t = Tally::default();
+        let x = &st[i];
+        let two64 = BigInt::from(1) << 64usize;
+        let others: Vec<BigInt> = vec![BigInt::from(1), BigInt::from(-1), BigInt::from(3), BigInt::from(-7), BigInt::from(10), BigInt::from(1u64 << 32), &two64 - 1, -(&two64 + 1i32), pow10(19), x + 1, x - 1i32, x.clone()];
+        for y in others.iter() {
+            if y.is_zero() {
+                continue;
+            }
+            for (sa, sb) in [(0i128, 0i128), (3, 3), (0, 1), (1, 0), (0, 20), (20, 0), (-2, 2)] {
+                for (u, v) in [(x.clone(), y.clone()), (y.clone(), x.clone()), (-x.clone(), y.clone())] {
+                    let a = Dec { n: u, s: sa };
+                    let bb = Dec { n: v, s: sb };
+                    t.states += 1;
+                    t.nontrivial += 5;
+                    for viol in check(&fs, &a, &bb, &bd(&a), &bd(&bb), &mut t) {
+                        run.report(viol);
+                    }
+                }
+            }
+        }
+        t
+    });
+
     // S4: zero divisors at scales {0, +-5} must panic in every form
     run.seq("S4 zero divisors", || {
         let mut t = Tally::default();
